@@ -38,7 +38,7 @@ type c19Data struct {
 	dsStep []int          // documentSymbol per file
 	wsStep map[string]int // workspace/symbol per queried name
 	inGF   []bool         // per item: inside the body of a global function statement (function g / g.f / g:m)
-	msStep [][2]int       // (occurrence index of a method name, step of the workspace/symbol query for its qualified name)
+	msStep []c19MQ        // workspace/symbol queries for the qualified names of member functions
 }
 
 // inGlobalFuncBody computes, per item, whether it lies inside the body of a global function statement: function g(..) or a
@@ -65,6 +65,12 @@ func inGlobalFuncBody(items []scItem) []bool {
 		}
 	}
 	return out
+}
+
+// c19MQ is one workspace/symbol query about a member function: the occurrence of its name, the step, the query text.
+type c19MQ struct {
+	occ, step int
+	q         string
 }
 
 // methSpecified: a member function of a global table name that has no top-level definition in the workspace is left open
@@ -150,9 +156,15 @@ func c19Build(id int, raw json.RawMessage) *Job {
 		}
 		if o.Role == "mdef" {
 			// a member function is asked for by its qualified name, written with a dot
-			q := d.methTable(o) + "." + o.Name
-			pc.Steps = append(pc.Steps, proto.Step{M: "workspace/symbol", P: json.RawMessage(fmt.Sprintf(`{"query":%s}`, jstr(q)))})
-			d.msStep = append(d.msStep, [2]int{i, len(pc.Steps) - 1})
+			qs := []string{d.methTable(o) + "." + o.Name}
+			if items[o.Item].Colon {
+				// a method is also asked for the way it is written and shown in the outline
+				qs = append(qs, d.methTable(o)+":"+o.Name)
+			}
+			for _, q := range qs {
+				pc.Steps = append(pc.Steps, proto.Step{M: "workspace/symbol", P: json.RawMessage(fmt.Sprintf(`{"query":%s}`, jstr(q)))})
+				d.msStep = append(d.msStep, c19MQ{i, len(pc.Steps) - 1, q})
+			}
 		}
 	}
 	return &Job{PC: pc, Data: d}
@@ -334,13 +346,13 @@ func c19Judge(c *Ctx, j *Job, res *proto.Result) {
 		}
 	}
 	for _, ms := range d.msStep {
-		o := &d.r.Occ[ms[0]]
+		o := &d.r.Occ[ms.occ]
 		if !d.methSpecified(o) {
 			continue
 		}
 		tbl := d.methTable(o)
 		var ws []wsSym
-		if rp := res.Steps[ms[1]].Reply; len(rp) > 0 && string(rp) != "null" {
+		if rp := res.Steps[ms.step].Reply; len(rp) > 0 && string(rp) != "null" {
 			json.Unmarshal(rp, &ws)
 		}
 		found := false
@@ -356,11 +368,11 @@ func c19Judge(c *Ctx, j *Job, res *proto.Result) {
 			}
 		}
 		if !found && d.inGF[o.Item] {
-			devs["Dev_WorkspaceSymbolSkipsLocalsOfGlobalFunctions"] = fmt.Sprintf("workspace/symbol %q finds nothing; it is a member function defined inside a global function's body", tbl+"."+o.Name)
+			devs["Dev_WorkspaceSymbolSkipsLocalsOfGlobalFunctions"] = fmt.Sprintf("workspace/symbol %q finds nothing; it is a member function defined inside a global function's body", ms.q)
 			continue
 		}
 		if !found {
-			prob = append(prob, fmt.Sprintf("workspace/symbol %q returns no entry located at the definition of that member function at %s %d:%d (entries: %s)", tbl+"."+o.Name, d.r.Files[o.File], o.Line, o.Col, strings.Join(names, " ")))
+			prob = append(prob, fmt.Sprintf("workspace/symbol %q returns no entry located at the definition of that member function at %s %d:%d (entries: %s)", ms.q, d.r.Files[o.File], o.Line, o.Col, strings.Join(names, " ")))
 		}
 	}
 	for dv, ex := range devs {
